@@ -128,26 +128,27 @@ Definition all_fields : list field :=
   [FName; FDefault; FType; FElementType; FDescription; FDisposition; FAliases; FNullable;
    FExpectations; FIdentity; FLength; FPrecision; FScale; FOrigin; FHighest; FLowest; FNullCount].
 
-Definition field_name (f : field) : str :=
+Definition field_name_src (f : field) : str :=
   match f with
-  | FName => Eval vm_compute in txt "name"%string
-  | FDefault => Eval vm_compute in txt "default"%string
-  | FType => Eval vm_compute in txt "type"%string
-  | FElementType => Eval vm_compute in txt "element_type"%string
-  | FDescription => Eval vm_compute in txt "description"%string
-  | FDisposition => Eval vm_compute in txt "disposition"%string
-  | FAliases => Eval vm_compute in txt "aliases"%string
-  | FNullable => Eval vm_compute in txt "nullable"%string
-  | FExpectations => Eval vm_compute in txt "expectations"%string
-  | FIdentity => Eval vm_compute in txt "identity"%string
-  | FLength => Eval vm_compute in txt "length"%string
-  | FPrecision => Eval vm_compute in txt "precision"%string
-  | FScale => Eval vm_compute in txt "scale"%string
-  | FOrigin => Eval vm_compute in txt "origin"%string
-  | FHighest => Eval vm_compute in txt "highest_value"%string
-  | FLowest => Eval vm_compute in txt "lowest_value"%string
-  | FNullCount => Eval vm_compute in txt "null_count"%string
+  | FName => txt "name"%string
+  | FDefault => txt "default"%string
+  | FType => txt "type"%string
+  | FElementType => txt "element_type"%string
+  | FDescription => txt "description"%string
+  | FDisposition => txt "disposition"%string
+  | FAliases => txt "aliases"%string
+  | FNullable => txt "nullable"%string
+  | FExpectations => txt "expectations"%string
+  | FIdentity => txt "identity"%string
+  | FLength => txt "length"%string
+  | FPrecision => txt "precision"%string
+  | FScale => txt "scale"%string
+  | FOrigin => txt "origin"%string
+  | FHighest => txt "highest_value"%string
+  | FLowest => txt "lowest_value"%string
+  | FNullCount => txt "null_count"%string
   end.
+Definition field_name : field -> str := Eval vm_compute in field_name_src.
 
 Definition field_eqb (a b : field) : bool :=
   match a, b with
@@ -506,7 +507,7 @@ Definition kwargs_of_json (j : jval) : option kwargs :=
   | _ => None
   end.
 
-(* cls(**orjson.loads(text)) *)
+(* cls(double-star orjson.loads(text)) *)
 Definition from_json (fresh : str) (j : jval) : result column :=
   match kwargs_of_json j with
   | Some kw => init class_flat fresh kw
@@ -660,21 +661,38 @@ Definition ser_of (t : ser_table) (a : atom) : result jval :=
   | None => Raise Unmodelled
   end.
 
+(* observed columns are written relative to the observed built column (keeps the generated files small):
+   [RSame p] = the built column with the attributes in p replaced; the comparison is on the full column *)
+Inductive robs := RSame (patch : kwargs) | RFull (r : result column).
+Definition patch_col (p : kwargs) (c : column) : column := fold_left (fun c x => set (fst x) (snd x) c) p c.
+Definition resolve (b : result column) (o : robs) : result column :=
+  match o with
+  | RFull r => r
+  | RSame p => match b with Ok c => Ok (patch_col p c) | Raise e => Raise e end
+  end.
+Definition patch_kw (p : kwargs) (k : kwargs) : kwargs :=
+  map (fun x => match lookup (fst x) p with Some v => (fst x, v) | None => x end) k.
+
 (* what the harness observed for one column *)
 Record colobs := mkobs {
   o_fresh : str;                      (* the identity the constructor drew (used only when none was given) *)
-  o_built : result column;            (* FlatColumn(**kwargs) *)
+  o_built : result column;            (* FlatColumn(double-star kwargs) *)
   o_json : result jval;               (* orjson.loads(c.to_json()) *)
-  o_back : result column;             (* FlatColumn.from_json(c.to_json()) *)
-  o_flat : result column;             (* c.to_flatcolumn() *)
+  o_back : robs;                      (* FlatColumn.from_json(c.to_json()) *)
+  o_flat : robs;                      (* c.to_flatcolumn() *)
   o_desc : result (pv * str * pv * pv * pv);    (* DataFrame.description entry under the original schema *)
   o_desc2 : result (pv * str * pv * pv * pv)    (* ... under the restored schema *)
 }.
 
+(* observed to_dict: the schema's own entries, and per column the entries that differ from the built attributes *)
+Definition odict : Type := (option pv * option pv * list kwargs * option pv * list pv)%type.
+(* observed from_dict(to_dict): the schema's own attributes and the columns relative to the built ones *)
+Definition oschema : Type := (pv * pv * list robs * pv * (pv * pv * pv * pv))%type.
+
 (* a schema case: tables, the schema's own attributes (name, aliases, primary key, four statistics), the columns'
    keyword arguments with what was observed for each, the observed to_dict and the observed from_dict(to_dict) *)
 Definition c16_schema_case : Type :=
-  (parse_table * ser_table * (pv * pv * pv * pv * pv * pv * pv) * list (kwargs * colobs) * result sdict * result schema)%type.
+  (parse_table * ser_table * (pv * pv * pv * pv * pv * pv * pv) * list (kwargs * colobs) * result odict * result oschema)%type.
 
 Definition built_ok (x : kwargs * colobs) : option column :=
   match o_built (snd x) with Ok c => Some c | Raise _ => None end.
@@ -687,8 +705,8 @@ Definition col_check (P : str -> pv -> result pv) (S : atom -> result jval) (x :
   | Raise _ => true
   | Ok c =>
       result_eqb jval_eqb (to_json S c) (o_json o) &&
-      result_eqb column_eqb (bind (to_json S c) (from_json P (o_fresh o))) (o_back o) &&
-      result_eqb column_eqb (to_flatcolumn P (o_fresh o) c) (o_flat o) &&
+      result_eqb column_eqb (bind (to_json S c) (from_json P (o_fresh o))) (resolve (o_built o) (o_back o)) &&
+      result_eqb column_eqb (to_flatcolumn P (o_fresh o) c) (resolve (o_built o) (o_flat o)) &&
       result_eqb desc_eqb (describe c) (o_desc o)
   end.
 
@@ -706,6 +724,27 @@ Fixpoint descs_match (cs : list column) (os : list (kwargs * colobs)) : bool :=
   | _, _ => false
   end.
 
+Fixpoint zip_with {A B C : Type} (f : A -> B -> C) (a : list A) (b : list B) : list C :=
+  match a, b with
+  | x :: a', y :: b' => f x y :: zip_with f a' b'
+  | _, _ => []
+  end.
+
+Definition resolve_dict (cs : list column) (o : odict) : sdict :=
+  let '(n, al, cols, pk, rest) := o in
+  mksdict n al
+    (if Nat.eqb (List.length cols) (List.length cs)
+     then zip_with (fun c p => DCol (patch_kw p (map (fun f => (f, get f c)) all_fields))) cs cols
+     else [DJunk])
+    pk rest.
+Definition resolve_schema (cs : list column) (o : oschema) : result schema :=
+  let '(n, al, cols, pk, st) := o in
+  let '(a, b, c, d) := st in
+  if Nat.eqb (List.length cols) (List.length cs)
+  then bind (mapM (fun x => x) (zip_with (fun c r => resolve (Ok c) r) cs cols))
+            (fun cs' => Ok (mkschema n al cs' pk a b c d))
+  else Raise Unmodelled.
+
 Definition c16_schema_check (k : c16_schema_case) : bool :=
   let '(pt, st, top, cols, od, orest) := k in
   let '(n, al, pk, rcm, rce, dsm, dse) := top in
@@ -716,9 +755,9 @@ Definition c16_schema_check (k : c16_schema_case) : bool :=
   | None => true                        (* some column could not be built: no schema to persist *)
   | Some cs =>
       let s := mkschema n al cs pk rcm rce dsm dse in
-      result_eqb sdict_eqb (Ok (to_dict s)) od &&
+      result_eqb sdict_eqb (Ok (to_dict s)) (bind od (fun o => Ok (resolve_dict cs o))) &&
       let r := from_dict P (fun _ => []) (to_dict s) in
-      result_eqb schema_eqb r orest &&
+      result_eqb schema_eqb r (bind orest (resolve_schema cs)) &&
       match r with Ok s' => descs_match (s_columns s') cols | Raise _ => true end
   end.
 
@@ -737,7 +776,7 @@ Definition c16_schema_show (k : c16_schema_case) :=
 
 (* a flatten case: class name, keyword arguments (base fields), fresh identity, observed built column (its
    base attributes) and observed to_flatcolumn() *)
-Definition c16_flat_case : Type := (parse_table * str * kwargs * str * result column * result column)%type.
+Definition c16_flat_case : Type := (parse_table * str * kwargs * str * result column * robs)%type.
 
 Definition c16_flat_check (k : c16_flat_case) : bool :=
   let '(pt, cls, kw, fresh, ob, of) := k in
@@ -746,7 +785,7 @@ Definition c16_flat_check (k : c16_flat_case) : bool :=
   result_eqb column_eqb b ob &&
   match b with
   | Raise _ => true
-  | Ok c => result_eqb column_eqb (to_flatcolumn P fresh c) of
+  | Ok c => result_eqb column_eqb (to_flatcolumn P fresh c) (resolve ob of)
   end.
 
 Definition c16_flat_show (k : c16_flat_case) :=
